@@ -404,6 +404,8 @@ impl<'a> LaxPacketHeaders<'a> {
                     }
                 };
                 result.net = Some(NetHeaders::Arp(arp));
+                // no further payload after an ARP packet
+                result.payload = LaxPayloadSlice::Empty;
                 return result;
             }
             _ => {}
